@@ -368,6 +368,75 @@ func checkC12(c *vkit.Ctx) {
 			c.Case(vkit.Hash("twofiles", o.Name, seq, other), true)
 		}
 	}
+	// option VALUES reused for several Configs (a package-level `var common = []func(*snaps.Config){...}`
+	// spread into every WithConfig call, some calls adding overrides behind it): a Config is
+	// what its own options say, whatever other Configs were built from the same values
+	if os.Getenv("VERIF_RACE_BUILD") != "1" {
+		n := c.N(1500, 40000)
+		jsons := []snaps.JSONConfig{{Width: 20, Indent: "\t", SortKeys: false}, {Width: 60, Indent: " ", SortKeys: true}, {Width: 20, Indent: "    ", SortKeys: true}, {Width: 200, Indent: "", SortKeys: false}}
+		doc := `{"pos":7,"b":[1,2,3,4,5,6,7,8,9,10,11,12],"a":"x"}`
+		for j := 0; j < n; j++ {
+			i := total + 3000000 + j
+			if !c.Mine(i) {
+				continue
+			}
+			r := c.Rand("sharedopts", j)
+			ja, jb := jsons[r.IntN(4)], jsons[r.IntN(4)]
+			// which Configs get the override behind the common options, and in which order they are built
+			nc := 2 + r.IntN(3)
+			override := make([]bool, nc)
+			for k := range override {
+				override[k] = r.IntN(3) == 0
+			}
+			override[r.IntN(nc)] = true
+			useFirst := r.IntN(2) == 0 // a call through the first Config before the others are built
+			in := map[string]any{"part": "shared option values", "common_json": ja, "override_json": jb, "configs_with_override": override, "call_before_others_are_built": useFirst}
+			c.Guard(in, func() {
+				root := vkit.MkScratch("c12o")
+				defer os.RemoveAll(root)
+				snaps.VerifResetProcessState()
+				snaps.VerifSetMode(false, "")
+				snaps.VerifSetNoColor(true)
+				common := []func(*snaps.Config){snaps.JSON(ja), snaps.Ext(".x")}
+				overrideOpt := snaps.JSON(jb)
+				cfgs := make([]*snaps.Config, nc)
+				t := vkit.NewT("TestO")
+				for k := 0; k < nc; k++ {
+					opts := append(append([]func(*snaps.Config){}, common...), snaps.Dir(root), snaps.Filename(fmt.Sprintf("c%d", k)))
+					if override[k] {
+						opts = append(opts, overrideOpt)
+					}
+					cfgs[k] = snaps.WithConfig(opts...)
+					if k == 0 && useFirst {
+						cfgs[0].MatchJSON(t, doc)
+					}
+				}
+				for k := nc - 1; k >= 0; k-- {
+					cfgs[k].MatchJSON(t, doc)
+				}
+				t.Take()
+				t.Finish()
+				for k := 0; k < nc; k++ {
+					jc := ja
+					if override[k] {
+						jc = jb
+					}
+					want := strings.TrimSuffix(string(tpretty.PrettyOptions([]byte(doc), &tpretty.Options{Width: jc.Width, Indent: jc.Indent, SortKeys: jc.SortKeys})), "\n")
+					ents, _ := vkit.ReadSnapFile(filepath.Join(root, fmt.Sprintf("c%d.snap.x", k)))
+					if len(ents) == 0 || ents[0].Body != want {
+						got := "<no entry>"
+						if len(ents) > 0 {
+							got = ents[0].Body
+						}
+						c.Violate("format-not-a-function-of-options", "", fmt.Sprintf("Config %d of %d (override=%v) built from shared option values stored %s, its options say %s", k, nc, override[k], vkit.Q(got), vkit.Q(want)), in)
+						return
+					}
+				}
+				c.Count("configs_built_from_shared_option_values", nc)
+			})
+			c.Case(vkit.Hash("sharedopts", fmt.Sprint(in)), true)
+		}
+	}
 	// Configs derived from another Config by value (`d := *base; snaps.Filename("x")(&d)`:
 	// Config is an exported struct, options are plain funcs): base and derived are
 	// independent, each call lands where the options of the Config it went through say
